@@ -109,6 +109,9 @@ RefShape(shape, inner, arity) ==
       [] shape = "subquery-from" -> "SELECT \"sq\".\"a\" FROM (" \o inner \o ") AS \"sq\" ORDER BY 1"
       [] shape = "subquery-from-topn" -> "SELECT \"sq\".\"a\" FROM (" \o inner \o ") AS \"sq\" LIMIT 2"
       [] shape = "subquery-in" -> "SELECT \"ot\".\"k\" FROM \"ot\" WHERE (\"ot\".\"k\" IN (" \o inner \o ")) ORDER BY 1"
+      [] shape = "correlated-in" -> "SELECT \"t1\".\"a\" FROM \"t1\" WHERE (\"t1\".\"b\" IN (" \o inner \o ")) ORDER BY 1"
+      [] shape = "union-in" -> "SELECT \"ot\".\"k\" FROM \"ot\" WHERE (\"ot\".\"k\" IN (" \o inner \o " UNION SELECT \"ot\".\"k\" FROM \"ot\")) ORDER BY 1"
+      [] shape = "union-from" -> "SELECT \"sq\".\"a\" FROM (" \o inner \o " UNION ALL SELECT \"ot\".\"k\" FROM \"ot\") AS \"sq\" ORDER BY 1"
       [] shape = "union" -> inner \o " UNION SELECT \"ot\".\"k\" FROM \"ot\""
       [] shape = "intersect" -> inner \o " INTERSECT SELECT \"ot\".\"k\" FROM \"ot\""
       [] shape = "except" -> inner \o " EXCEPT SELECT \"ot\".\"k\" FROM \"ot\""
